@@ -22,7 +22,7 @@ class Ctx:
 
 def root_ctx(version, kind, name):
     if kind == 'msg':
-        return Ctx(version, 'msg', name, T.messages(version).get(name))
+        return Ctx(version, 'msg', name, T.message_ref(version, name))
     if kind == 'grp':
         return Ctx(version, 'grp', name, T.groups(version).get(name))
     if kind == 'seg':
